@@ -134,7 +134,7 @@ PROMO_NAMES = ["clip_f", "max_f", "min_f", "add_f", "mul_f", "rsub_f", "truediv"
 # open findings (known_findings/C01.json, D19): these lower with the *integer* operand type (clip/maximum/minimum/power against a
 # float scalar return int32). (jnp.where(int, x, 0.5) announcing float64 to its consumers was repaired: corpus/C01/promo-where_f-then-prod.) They stay in the table for the committed repro cases but are not drawn, so that the programs around
 # them keep being checked. (jnp.mean of an integer/bool tensor was repaired: corpus/C01/promo-mean-*.)
-PROMO_KNOWN_BROKEN = ("clip_f", "max_f", "min_f", "pow_f")
+PROMO_KNOWN_BROKEN = ("clip_f", "max_f", "min_f", "pow_f", "var", "std_all")  # var/std of integers: invalid in double precision (C03 special repro)
 PROMO_REDUCING = {"mean": "last", "var": "last", "mean_all": "all", "std_all": "all"}
 BIN_F_NAMES = ["add", "sub", "mul", "div_g", "max", "min", "fmod_g", "rem_g", "floordiv_g", "pow_g", "atan2", "hypot", "copysign", "logaddexp", "div_c", "pow_c", "clip_hi"]
 UN_I_NAMES = ["neg", "abs", "sign", "square", "invert"]
